@@ -294,7 +294,12 @@ func GoHeader(r *mon.Rand, o HeaderOpts, forbidIV bool) (m map[any]any, usedIV i
 		if r.Bool() {
 			chain = append(chain, BytesValue(r))
 		}
-		put(mon.Pick(r, int64(33), int64(32)), chain)
+		if len(chain) == 1 && r.Bool() {
+			// the same single certificate as a generic one-element list
+			put(mon.Pick(r, int64(33), int64(32)), []any{chain[0]})
+		} else {
+			put(mon.Pick(r, int64(33), int64(32)), chain)
+		}
 	}
 	if o.Protected && !o.Plain && o.MaxEntries > 0 && r.Intn(8) == 0 {
 		// values that are written with a CBOR tag. Tags are permitted inside protected header content
